@@ -283,8 +283,16 @@ class TaskDispatcher(object):
         if branch_id and execution_arn in branch_metadata:
             # Get the dict containing all the branch results for this execution
             all_branch_results = branch_metadata[execution_arn].results
-            branch_results = all_branch_results[branch_id]
-            if branch_results.get("terminated"):
+            branch_results = all_branch_results.get(branch_id)
+            """
+            The Branch results are initialised when the Task State's event is
+            received, before the Task is executed, so if they are no longer
+            there they have been tidied up with those of their execution
+            (e.g. the error of another Branch was caught, and the execution
+            has since ended, whilst this Task was still outstanding). The
+            Map or Parallel State that this Task belongs to is long gone.
+            """
+            if branch_results == None or branch_results.get("terminated"):
                 return True
         return False
 
@@ -344,10 +352,16 @@ class TaskDispatcher(object):
             checked to see if there is still an entry for the correlation_id
             and thus still orphaned.
             Note that this nested function captures the message instance from
-            the parent function in its closure and uses that captured value
-            when the timeout is triggered.
+            the parent function in its closure, but when the timeout is
+            triggered the response that is logged and acknowledged is the one
+            that is retained in orphaned_responses at that time. The two differ
+            when the retained response has been replaced by an rpcmessage error
+            response with the same correlation_id (which reuses this timeout):
+            the captured message has then already been acknowledged.
             """
-            if message.correlation_id in self.orphaned_responses:
+            orphaned_response = self.orphaned_responses.get(message.correlation_id)
+            if orphaned_response:
+                retained_message = orphaned_response[0]
                 """
                 The responses to invoke.waitForTaskToken rpcmessage requests
                 are ignored as the *actual* Task response for those will be
@@ -359,7 +373,7 @@ class TaskDispatcher(object):
                 if not message.correlation_id.endswith(".waitForTaskToken"):
                     with opentracing.tracer.start_active_span(
                         operation_name="Task",
-                        child_of=span_context("text_map", message.properties, self.logger),
+                        child_of=span_context("text_map", retained_message.properties, self.logger),
                         tags={
                             "component": "task_dispatcher",
                             "message_bus.destination": self.reply_to.name,
@@ -367,7 +381,7 @@ class TaskDispatcher(object):
                             "peer.address": self.peer_address
                         }
                     ) as scope:
-                        self.logger.info("Response {} has no matching requestor".format(message))
+                        self.logger.info("Response {} has no matching requestor".format(retained_message))
                         scope.span.set_tag("error", True)
                         scope.span.log_kv(
                             {
@@ -377,7 +391,7 @@ class TaskDispatcher(object):
                         )
 
                 del self.orphaned_responses[message.correlation_id]
-                message.acknowledge(multiple=False)
+                retained_message.acknowledge(multiple=False)
 
 
         correlation_id = message.correlation_id
@@ -467,7 +481,7 @@ class TaskDispatcher(object):
         will be ignored unless it is an error, the second from the
         SendTaskSuccess/SendTaskFailure API calls.
         """
-        if request_has_waitForTaskToken and error_type == None:
+        if request_has_waitForTaskToken and not error_type:
             message.acknowledge(multiple=False)
             return
 
@@ -920,9 +934,12 @@ class TaskDispatcher(object):
                         callback,
                         branch_id,      # ignored
                         sched_time,     # ignored
-                        timeout_id,     # ignored
+                        timeout_id,
                         task_span
                     ) = request
+
+                    # Cancel the timeout previously set for this request.
+                    self.state_engine.event_dispatcher.clear_timeout(timeout_id)
 
                     with opentracing.tracer.scope_manager.activate(
                         span=task_span,
